@@ -3,9 +3,9 @@
    getStream / clear, the idempotency result cache) in the string-based vocabulary
    of Model/MapApi23.v, so that it can be related to the Redis-side model directly.
    Branch by branch from the Go code (cross-read against Model/MapHub.v, the C20/21/24
-   model of the same code).  Scope of this model: channels WITHOUT key expiry sweeps
-   (KeyTTL bookkeeping, StreamTTL / MetaTTL sweeps are not modelled: Stage A/B use
-   persistent channels and, for recoverable ones, TTLs far beyond the run);
+   model of the same code).  Key TTL: per-key deadlines (keyExpires) and the sweep
+   expireKeysIteration (MCleanup) are modelled; StreamTTL / MetaTTL sweeps are not (runs use
+   TTLs far beyond their length);
    epoch.Generate() = the nonce carried by the operation. *)
 From Coq Require Import List NArith ZArith Bool String.
 From Cfg Require Import Model.RStr Model.Redis Model.MapApi23.
@@ -24,13 +24,14 @@ Record mchan := mkMCh {
 Record mmstate := mkMM {
   mm_chans : list (string * mchan);
   mm_idem : list (string * (N * string * N));  (* "ch\000key" -> (offset, epoch, expireAt ms) *)
-  mm_now : N
+  mm_now : N;
+  mm_exp : list (string * N)                   (* keyExpires: "ch\000key" -> expireAt ms *)
 }.
-Definition mm_init : mmstate := mkMM [] [] 0.
+Definition mm_init : mmstate := mkMM [] [] 0 [].
 
 Definition new_chan (epoch : string) : mchan := mkMCh 0 epoch [] [].
 Definition set_chan (m : mmstate) (ch : string) (c : mchan) : mmstate :=
-  mkMM (sput ch c (mm_chans m)) (mm_idem m) (mm_now m).
+  mkMM (sput ch c (mm_chans m)) (mm_idem m) (mm_now m) (mm_exp m).
 Definition chan_pos (c : mchan) : N * string := (ch_top c, ch_epoch c).
 
 (* ---------- memstream ---------- *)
@@ -81,7 +82,7 @@ Definition idem_get (m : mmstate) (ch k : string) : option (N * string) :=
 Definition idem_save (m : mmstate) (ch k : string) (pos : N * string) (ttl : Z) : mmstate :=
   if String.eqb k "" then m else
   let t := if (ttl =? 0)%Z then default_idem_ms else ttl in
-  mkMM (mm_chans m) (sput (idem_key ch k) (fst pos, snd pos, Z.to_N (Z.of_N (mm_now m) + t)) (mm_idem m)) (mm_now m).
+  mkMM (mm_chans m) (sput (idem_key ch k) (fst pos, snd pos, Z.to_N (Z.of_N (mm_now m) + t)) (mm_idem m)) (mm_now m) (mm_exp m).
 
 (* ---------- mapHub.add ---------- *)
 Definition cas_check (epoch : string) (exp : option (N * string)) (cur : option mentry) : option (option (N * string)) :=
@@ -136,15 +137,32 @@ Definition hub_add (cf : mcfg) (m : mmstate) (ch key : string) (o : mpopts) (non
       (set_chan m1 ch c2, MUpd (fst p) (snd p) false "" None)
   end end.
 
-Definition mm_publish (cf : mcfg) (m : mmstate) (ch key : string) (o : mpopts) (nonce : string) : mmstate * mres :=
+(* keyExpires bookkeeping of mapHub.add: a stored key gets the deadline now + KeyTTL, and so does an
+   existing key whose KeyModeIfNew publish was suppressed with RefreshTTLOnSuppress *)
+Definition set_exp (m : mmstate) (ch key : string) (at_ : N) : mmstate :=
+  mkMM (mm_chans m) (mm_idem m) (mm_now m) (sput (idem_key ch key) at_ (mm_exp m)).
+Definition del_exp (m : mmstate) (ch key : string) : mmstate :=
+  mkMM (mm_chans m) (mm_idem m) (mm_now m) (sdel (idem_key ch key) (mm_exp m)).
+Definition touch_exp (cf : mcfg) (m : mmstate) (ch key : string) (o : mpopts) (now : N) (r : mres) : mmstate :=
+  if ((0 <? mc_keyttl cf)%Z && negb (String.eqb key ""))%bool then
+    match r with
+    | MUpd _ _ false _ _ => set_exp m ch key (now + Z.to_N (mc_keyttl cf))
+    | MUpd _ _ true reason _ =>
+        if (String.eqb reason "key_exists" && mp_refresh o)%bool then set_exp m ch key (now + Z.to_N (mc_keyttl cf)) else m
+    | _ => m
+    end
+  else m.
+
+Definition mm_publish (cf : mcfg) (m : mmstate) (ch key : string) (o : mpopts) (nonce : string) (now : N) : mmstate * mres :=
   if (is_ephemeral cf && (match mp_exp o with Some _ => true | None => false end || (0 <? mp_ver o)))%bool then (m, MErr) else
   match (if String.eqb (mp_idem o) "" then None else idem_get m ch (mp_idem o)) with
   | Some (off, ep) => (m, MUpd off ep true "idempotency" None)
   | None =>
       let '(m1, r) := hub_add cf m ch key o nonce in
+      let m2 := touch_exp cf m1 ch key o now r in
       match r with
-      | MUpd off ep false _ _ => (idem_save m1 ch (mp_idem o) (off, ep) (mp_idemttl o), r)
-      | _ => (m1, r)
+      | MUpd off ep false _ _ => (idem_save m2 ch (mp_idem o) (off, ep) (mp_idemttl o), r)
+      | _ => (m2, r)
       end
   end.
 
@@ -177,7 +195,7 @@ Definition mm_remove (cf : mcfg) (m : mmstate) (ch key : string) (o : mropts) : 
   | None =>
       let '(m1, r) := hub_remove cf m ch key o in
       match r with
-      | MUpd off ep false _ _ => (idem_save m1 ch (mr_idem o) (off, ep) (mr_idemttl o), r)
+      | MUpd off ep false _ _ => (idem_save (del_exp m1 ch key) ch (mr_idem o) (off, ep) (mr_idemttl o), r)
       | _ => (m1, r)
       end
   end.
@@ -239,16 +257,48 @@ Definition mm_read_state (m : mmstate) (ch : string) (rev_ : option (N * string)
 
 Definition mm_clear (m : mmstate) (ch : string) : mmstate :=
   mkMM (sdel ch (mm_chans m))
-       (filter (fun kv => negb (is_prefix (idem_key ch "") (fst kv))) (mm_idem m)) (mm_now m).
+       (filter (fun kv => negb (is_prefix (idem_key ch "") (fst kv))) (mm_idem m)) (mm_now m)
+       (filter (fun kv => negb (is_prefix (idem_key ch "") (fst kv))) (mm_exp m)).
+
+(* ---------- mapHub.expireKeysIteration at time [now] ---------- *)
+Fixpoint einsert (x : string * N) (l : list (string * N)) : list (string * N) :=
+  match l with
+  | [] => [x]
+  | y :: r => if (snd x <? snd y)%N then x :: l else y :: einsert x r        (* stable: ties keep insertion order *)
+  end.
+Definition split_chkey (s : string) : string * string :=
+  match sindex_char (Ascii.ascii_of_nat 0) s with
+  | Some i => (stake i s, sdrop (S i) s)
+  | None => (s, "")
+  end.
+Definition expire_one (cf : mcfg) (m : mmstate) (chkey : string) : mmstate :=
+  let '(ch, key) := split_chkey chkey in
+  let m0 := mkMM (mm_chans m) (mm_idem m) (mm_now m) (sdel chkey (mm_exp m)) in
+  match sfind ch (mm_chans m) with
+  | None => m0
+  | Some c =>
+      match sfind key (ch_state c) with
+      | None => m0
+      | Some _ =>
+          let c1 := mkMCh (ch_top c) (ch_epoch c) (ch_items c) (sdel key (ch_state c)) in
+          if (has_stream cf && (0 <? mc_size cf)%Z)%bool then
+            let '(c2, _) := stream_add c1 (fun off => (off, key, "", true)) (mc_size cf) in set_chan m0 ch c2
+          else set_chan m0 ch c1
+      end
+  end.
+Definition mm_cleanup (cf : mcfg) (m : mmstate) (now : N) : mmstate :=
+  let due := fold_right einsert [] (rev (filter (fun kv => (snd kv <=? now)%N) (mm_exp m))) in
+  fold_left (fun acc kv => expire_one cf acc (fst kv)) due m.
 
 Definition mm_step (cf : mcfg) (m : mmstate) (o : mop) : mmstate * mres :=
   match o with
-  | MPublish ch key po nonce _ => mm_publish cf m ch key po nonce
+  | MPublish ch key po nonce now => mm_publish cf m ch key po nonce now
   | MRemove ch key ro _ _ => mm_remove cf m ch key ro
   | MReadState ch rev_ limit key _ _ nonce => mm_read_state m ch rev_ limit key nonce
   | MReadStream ch since limit reverse _ nonce => mm_read_stream m ch since limit reverse nonce
   | MClear ch => (mm_clear m ch, MUnit)
-  | MTick ms => (mkMM (mm_chans m) (mm_idem m) (mm_now m + ms), MUnit)
+  | MTick ms => (mkMM (mm_chans m) (mm_idem m) (mm_now m + ms) (mm_exp m), MUnit)
+  | MCleanup now _ => (mm_cleanup cf m now, MUnit)
   end.
 
 Fixpoint mm_run (cf : mcfg) (m : mmstate) (ops : list mop) : list mres :=
